@@ -13,6 +13,12 @@ package main
 //        G = Headers.LocateHeadersGetHeaders(locator, stop):  H:<ids>  |  E:stoplow | E:nolocators (code before 744966c) | E:other | PANIC
 //        L = Headers.LocateHeaders(locator, stop): H:<ids>; "same" when it returns exactly G's headers (nothing on error)
 //
+//   <store>;|r=<q1>+<q2>+..         "answers stay stable": the requests q_k = <ids>/<stop> are issued one after the
+//        other through BOTH entry points; the values returned for each (the []*wire.BlockHeader / []wire.BlockHeader
+//        exactly as returned, not copies) are kept and projected only AFTER the last request has been answered.
+//        obs: <answer 1> + <answer 2> + ..   each as for q=, with " changed" appended when the late projection of a
+//        retained answer differs from its projection right at return (the model's answers are values: never).
+//
 // <store> = a C01 history line (see common_chain.go); the token `linear=<n>` stands for the canonical linear
 // chain of n headers (ids 2..n+1, header k has prev k-1... see c13Linear) so that a 2100-header store does not
 // need a 2100-submission line.  The store is built by submitting every header to Chains.Add.
@@ -376,6 +382,95 @@ func (st *c13Store) obsQuery(s *Stack, locIDs []int, stop int) string {
 	return gobs + " L=" + lobs
 }
 
+// obsRetained issues the requests in order, keeps what was returned, and projects everything at the end.
+func (st *c13Store) obsRetained(s *Stack, reqs [][2]interface{}) string {
+	type kept struct {
+		gErr   string
+		g      []*wire.BlockHeader
+		l      []wire.BlockHeader
+		gNow   string
+		lNow   string
+		gPanic bool
+		lPanic bool
+	}
+	projL := func(hs []wire.BlockHeader) string {
+		ps := make([]*wire.BlockHeader, len(hs))
+		for i := range hs {
+			ps[i] = &hs[i]
+		}
+		return "H:" + c13IDs(st.wireIDs(ps))
+	}
+	ks := make([]*kept, len(reqs))
+	for k, rq := range reqs {
+		locIDs, stop := rq[0].([]int), rq[1].(int)
+		mk := func() (domains.BlockLocator, *chainhash.Hash) {
+			loc := make(domains.BlockLocator, 0, len(locIDs))
+			for _, id := range locIDs {
+				hv := st.hashOf(id)
+				loc = append(loc, &hv)
+			}
+			sh := st.hashOf(stop)
+			return loc, &sh
+		}
+		kp := &kept{}
+		ks[k] = kp
+		func() {
+			defer func() {
+				if r := recover(); r != nil {
+					kp.gPanic = true
+				}
+			}()
+			loc, sh := mk()
+			hs, err := s.Services.Headers.LocateHeadersGetHeaders(loc, sh)
+			if err != nil {
+				kp.gErr = c13ErrClass(err)
+				return
+			}
+			kp.g = hs
+			kp.gNow = "H:" + c13IDs(st.wireIDs(hs))
+		}()
+		func() {
+			defer func() {
+				if r := recover(); r != nil {
+					kp.lPanic = true
+				}
+			}()
+			loc, sh := mk()
+			kp.l = s.Services.Headers.LocateHeaders(loc, sh)
+			kp.lNow = projL(kp.l)
+		}()
+	}
+	parts := make([]string, len(ks))
+	for k, kp := range ks {
+		if kp.gPanic || kp.lPanic {
+			parts[k] = "PANIC"
+			continue
+		}
+		gLate, changed := kp.gErr, false
+		want := "H:"
+		if kp.gErr == "" {
+			gLate = "H:" + c13IDs(st.wireIDs(kp.g))
+			changed = gLate != kp.gNow
+			want = gLate
+		}
+		lLate := projL(kp.l)
+		if lLate != kp.lNow {
+			changed = true
+		}
+		o := gLate
+		if lLate == want {
+			o += " same"
+		} else {
+			o += " L=" + lLate
+		}
+		if changed {
+			o += " changed"
+		}
+		parts[k] = o
+	}
+	return strings.Join(parts, " + ")
+}
+
 func c13QueryString(locIDs []int, stop int) string {
 	p := make([]string, len(locIDs))
 	for i, v := range locIDs {
@@ -412,6 +507,7 @@ func c13ParseQuery(q string) ([]int, int, error) {
 
 type c13Run struct {
 	c      *Ctx
+	qlog   []string // the getheaders queries emitted for the current store (material for retained sequences)
 	stacks map[string]*Stack
 	seen map[string]bool
 }
@@ -438,11 +534,24 @@ func (r *c13Run) emit(st *c13Store, q string) {
 		r.c.Case(line, st.obsLoc(st.stk))
 		r.c.Count("query:locator")
 		r.c.Count(fmt.Sprintf("locator:tip-height-%s", c13Bucket(len(st.lIDs)-1)))
+	case strings.HasPrefix(q, "r="):
+		var reqs [][2]interface{}
+		for _, one := range strings.Split(q[2:], "+") {
+			loc, stop, err := c13ParseQuery("q=" + one)
+			if err != nil {
+				panic(err)
+			}
+			reqs = append(reqs, [2]interface{}{loc, stop})
+		}
+		r.c.Case(line, st.obsRetained(st.stk, reqs))
+		r.c.Count("query:retained-answers")
+		r.c.Count(fmt.Sprintf("retained:sequence-of-%d", len(reqs)))
 	default:
 		loc, stop, err := c13ParseQuery(q)
 		if err != nil {
 			panic(err)
 		}
+		r.qlog = append(r.qlog, q[2:])
 		obs := st.obsQuery(st.stk, loc, stop)
 		r.c.Case(line, obs)
 		r.c.Count("query:getheaders")
@@ -540,6 +649,7 @@ func (r *c13Run) classify(st *c13Store, loc []int, stop int, obs string) {
 // queries for one store: own locator, structured + random locators x structured + random stops
 func (r *c13Run) queries(st *c13Store, nLoc, nStop int, stopEvery int) {
 	rng := r.c.Rng
+	r.qlog = r.qlog[:0]
 	r.emit(st, "st")
 	r.emit(st, "loc")
 	pick := func(l []int) int { return l[rng.Intn(len(l))] }
@@ -629,6 +739,26 @@ func (r *c13Run) queries(st *c13Store, nLoc, nStop int, stopEvery int) {
 	}
 }
 
+
+// retained emits n "answers stay stable" sequences of 2-4 requests drawn from the queries already emitted for
+// this store (so: all locator and stop families), preferring requests with non-empty, different answers.
+func (r *c13Run) retained(st *c13Store, n int) {
+	rng := r.c.Rng
+	if len(r.qlog) < 2 {
+		return
+	}
+	for i := 0; i < n; i++ {
+		k := 2 + rng.Intn(3)
+		if i%2 == 0 {
+			k = 2
+		}
+		seq := make([]string, 0, k)
+		for len(seq) < k {
+			seq = append(seq, r.qlog[rng.Intn(len(r.qlog))])
+		}
+		r.emit(st, "r="+strings.Join(seq, "+"))
+	}
+}
 
 // longLocators: locators of 101..500 entries (the wire allows 500) - longer than any batch size a lookup might
 // use - whose longest-chain entries are spread over the whole locator, with stale / orphan / unknown entries
@@ -809,6 +939,7 @@ func runC13(c *Ctx) error {
 			return err
 		}
 		r.queries(st, 8, 6, 0)
+		r.retained(st, 3)
 		c.Count("gen:linear-small")
 	}
 	// random small stores with forks, stale branches (also at locator heights), orphans, duplicates
@@ -821,6 +952,7 @@ func runC13(c *Ctx) error {
 			return err
 		}
 		r.queries(st, 14, 9, 0)
+		r.retained(st, 4)
 		c.Count("gen:random-forked")
 		for _, cl := range HistoryClass(h) {
 			c.Count("class:" + cl)
@@ -835,6 +967,7 @@ func runC13(c *Ctx) error {
 			return err
 		}
 		r.queries(st, 12, 8, 0)
+		r.retained(st, 2)
 		c.Count("gen:random-with-zero-work")
 	}
 	// a linear trunk of 30-60 headers with stale siblings and orphans at the heights the locator visits
@@ -860,6 +993,7 @@ func runC13(c *Ctx) error {
 			return err
 		}
 		r.queries(st, 16, 8, 7)
+		r.retained(st, 6)
 		c.Count("gen:trunk-with-stale-at-locator-heights")
 	}
 	// the long store: crosses the cap; a stale sibling pair at a locator height and an orphan on top
@@ -876,6 +1010,11 @@ func runC13(c *Ctx) error {
 			return err
 		}
 		r.queries(st, c.Pick(14, 30), 8, 50)
+		r.retained(st, c.Pick(12, 60))
+		// retained answers of exactly cap headers
+		for _, q := range []string{"r=1/0+51/0", "r=1/0+1001/0+/0", "r=/0+101/0+1/2101+2000/0", "r=51/0+1/0+51/0", "r=900001/0+1,2,3/0+100/900002"} {
+			r.emit(st, q)
+		}
 		r.longLocators(st, []int{101, 250, 500})
 		c.Count("gen:long-linear")
 	}
@@ -929,6 +1068,7 @@ func runC13(c *Ctx) error {
 				return err
 			}
 			r.queries(st, 12, 8, 0)
+			r.retained(st, 3)
 			c.Count("gen:net-" + net.name)
 		}
 	}
